@@ -221,7 +221,10 @@ def tr_ToGeoJSON(src):
         if fn not in cn or a0 != (arg if arg else "g.(geom.%s)" % ty):
             raise Untranslatable("ToGeoJSON arm %s: coordinates expression" % ty)
         out.append("  | .%s v => .ok ⟨\"%s\", .%s (%s v)⟩" % (CTOR[ty], tyname, cn[fn], fn))
-    return ("def toGeoJSON : Geom F → Except Err (Geometry F)\n" + "\n".join(out) + "\n  | _ => .error %s" % ERR[dflt])
+    return ("def toGeoJSON : Geom F → Except Err (Geometry F)\n" + "\n".join(out) +
+            # the default arm evaluates reflect.TypeOf(g).String(): for the nil interface value reflect.TypeOf returns a
+            # nil reflect.Type and the method call panics before the error value is built
+            "\n  | .nil => .error .panicNil\n  | _ => .error %s" % ERR[dflt])
 
 
 def tr_fixed(src_enc, src_dec, src_gj):
